@@ -486,11 +486,12 @@ class eval_abs(object):
         return ret_value
 
     def eval_op_arshift(self, args, op_size, cast_int):
-        r = args[1]#&0x1F
-        if args[0]>=0:
-            ret_value = ((args[0]&mymaxuint[op_size])>>r)
-        else:
-            ret_value = -((-args[0])>>r)
+        # operands are unsigned modular integers: the sign is bit op_size-1
+        r = int(args[1])
+        v = int(args[0]) & mymaxuint[op_size]
+        if v >> (op_size-1):
+            v -= 1<<op_size
+        ret_value = (v >> min(r, op_size)) & mymaxuint[op_size]
         return ret_value
 
 
@@ -551,7 +552,7 @@ class eval_abs(object):
                'objbyid_default0':objbyid_default0,
                }
 
-    op_size_no_check = ['<<<', '>>>', 'a<<', '>>', '<<',
+    op_size_no_check = ['<<<', '>>>', 'a>>', '>>', '<<',
                         '<<<c_rez', '<<<c_cf',
                         '>>>c_rez', '>>>c_cf',]
 
